@@ -149,7 +149,7 @@ theorem autoOf_no_reduce0 (s a : Nat) : (autoOf T cert).action s a ≠ some (.re
   obtain ⟨_, hv, hto⟩ := decodeAct_reduce.mp hdec
   omega
 
-theorem trans_lt (h : CheckOK G nTerms nRules T cert) {s : Nat} {X : Sym} {s' : Nat}
+theorem trans_lt (h : SafeOK G nTerms nRules T cert) {s : Nat} {X : Sym} {s' : Nat}
     (htr : trans (autoOf T cert) s X = some s') : s' < cert.size := by
   cases X with
   | t x =>
@@ -177,13 +177,13 @@ theorem trans_lt (h : CheckOK G nTerms nRules T cert) {s : Nat} {X : Sym} {s' : 
     have := (backB_spec ok.2.2.2).2.1
     rwa [hto] at this
 
-theorem stackInv_states_lt (h : CheckOK G nTerms nRules T cert) {st : List Abs.Entry} {syms w}
+theorem stackInv_states_lt (h : SafeOK G nTerms nRules T cert) {st : List Abs.Entry} {syms w}
     (hinv : StackInv G (autoOf T cert) st syms w) : ∀ e ∈ st, e.state < cert.size := by
   induction hinv with
   | base v0 =>
     intro e he
     simp at he; subst he
-    exact mem_itemsOf h.start
+    exact h.nonempty
   | push _ htr _ ih =>
     intro e he
     simp only [List.mem_cons] at he
@@ -191,7 +191,7 @@ theorem stackInv_states_lt (h : CheckOK G nTerms nRules T cert) {st : List Abs.E
     · subst he; exact trans_lt h htr
     · exact ih e (by simpa using he)
 
-theorem find_actions_cases (h : CheckOK G nTerms nRules T cert) {s : Nat} (hs : s < cert.size)
+theorem find_actions_cases (h : SafeOK G nTerms nRules T cert) {s : Nat} (hs : s < cert.size)
     (a : Int) : (∃ v, find T.actions (s : Int) a = .hit v) ∨ find T.actions (s : Int) a = .miss := by
   obtain ⟨row, hrow, _, _⟩ := (h.states s hs).arow
   rw [find_eq hrow]
@@ -286,12 +286,12 @@ theorem rel_top {inp : Array Nat} {e : Abs.Entry} {st0 : List Abs.Entry} {input 
     simp [topState, this.1]
 
 /-- Simulation of an abstract step that continues. -/
-theorem sim_cont (hc : CheckOK G nTerms nRules T cert) {inp : Array Nat}
+theorem sim_cont (hc : SafeOK G nTerms nRules T cert) {inp : Array Nat}
     (hinp : ∀ x ∈ inp.toList, x ≠ 1) (wb : Bool) (fuel : Nat) {c c' : Abs.Config} {s : PState}
     (hrel : Rel inp c s) {syms w} (hinv : StackInv G (autoOf T cert) c.stack syms w)
     (hstep : Abs.step G (autoOf T cert) c = .cont c') :
     ∃ s', step T inp wb fuel s = .cont s' ∧ Rel inp c' s' := by
-  have hsafe := safe_of_checkOK hc
+  have hsafe := safe_of_safeOK hc
   obtain ⟨stack, input, lg⟩ := c
   cases stack with
   | nil => exact absurd rfl hinv.ne_nil
@@ -443,12 +443,12 @@ theorem sim_acc {inp : Array Nat} (wb : Bool) (fuel : Nat) {c : Abs.Config} {s :
 
 /-- When the abstract step fails on a reachable configuration, the generated parser finds no
 action for the lookahead (and would enter `_recover`). -/
-theorem sim_fail (hc : CheckOK G nTerms nRules T cert) {inp : Array Nat} {c : Abs.Config}
+theorem sim_fail (hc : SafeOK G nTerms nRules T cert) {inp : Array Nat} {c : Abs.Config}
     {s : PState} (hrel : Rel inp c s) {syms w}
     (hinv : StackInv G (autoOf T cert) c.stack syms w)
     (hstep : Abs.step G (autoOf T cert) c = .fail) :
     ∃ top, topState s.stack = some top ∧ find T.actions top s.la = .miss := by
-  have hsafe := safe_of_checkOK hc
+  have hsafe := safe_of_safeOK hc
   have hnone := Abs.step_fail hsafe autoOf_no_reduce0 hinv hstep
   obtain ⟨stack, input, lg⟩ := c
   cases stack with
@@ -468,7 +468,7 @@ theorem sim_fail (hc : CheckOK G nTerms nRules T cert) {inp : Array Nat} {c : Ab
     · exact hm
 
 /-- Accepting abstract runs are followed by the concrete loop (fuel for fuel). -/
-theorem runLoop_accept (hc : CheckOK G nTerms nRules T cert) {inp : Array Nat}
+theorem runLoop_accept (hc : SafeOK G nTerms nRules T cert) {inp : Array Nat}
     (hinp : ∀ x ∈ inp.toList, x ≠ 1) (wb : Bool) (fuel : Nat) :
     ∀ (n : Nat) {c : Abs.Config} {s : PState} {syms w} {t lg}, Rel inp c s →
       StackInv G (autoOf T cert) c.stack syms w →
@@ -485,7 +485,7 @@ theorem runLoop_accept (hc : CheckOK G nTerms nRules T cert) {inp : Array Nat}
     | cont c' =>
       rw [hst] at h
       obtain ⟨s', hs', hrel'⟩ := sim_cont hc hinp wb fuel hrel hinv hst
-      obtain ⟨syms', u, hinv', _⟩ := Abs.step_inv (safe_of_checkOK hc) hst hinv
+      obtain ⟨syms', u, hinv', _⟩ := Abs.step_inv (safe_of_safeOK hc) hst hinv
       obtain ⟨sf, h1, h2⟩ := ih hrel' hinv' h
       exact ⟨sf, by simp [runLoop, hs', h1], h2⟩
     | acc t' =>
@@ -517,7 +517,7 @@ theorem parse_init {inp : Array Nat} (hinp : ∀ x ∈ inp.toList, x ≠ 1) :
 /-- **Concrete completeness.** On validated tables, whenever the abstract machine accepts `inp`
 within `n` steps, the model of the generated `parse` accepts it for every fuel `≥ n`, the `_act`
 calls it logs are the abstract log, and the value on top of the stack is the tree. -/
-theorem parse_accept (hc : CheckOK G nTerms nRules T cert) {inp : Array Nat}
+theorem parse_accept (hc : SafeOK G nTerms nRules T cert) {inp : Array Nat}
     (hinp : ∀ x ∈ inp.toList, x ≠ 1) (wb : Bool) {n : Nat} {t lg}
     (h : Abs.run G (autoOf T cert) n (Abs.init inp.toList) = .acc t lg) {fuel : Nat}
     (hfuel : n ≤ fuel) :
@@ -637,7 +637,7 @@ open Abs (StackInv)
 section
 variable {G : Grammar} {nTerms nRules : Nat} {T : Tables} {cert : Array (List Item)}
 
-theorem recover_noerr (hc : CheckOK G nTerms nRules T cert)
+theorem recover_noerr (hc : SafeOK G nTerms nRules T cert)
     (hne : NoErrorActions T cert.size) {inp : Array Nat} (hinp : ∀ x ∈ inp.toList, x ≠ 1)
     (fuel : Nat) {s : PState} {i ty : Nat} (hsym : s.lasym = .tok i ty) (hla : s.la ≠ tERROR)
     (hrec : s.recovering = false) (hq : s.qla = -1) (hr : StackInRange cert.size s.stack)
@@ -669,7 +669,7 @@ open Abs (StackInv)
 section
 variable {G : Grammar} {nTerms nRules : Nat} {T : Tables} {cert : Array (List Item)}
 
-theorem rel_stackInRange (hc : CheckOK G nTerms nRules T cert) {inp : Array Nat}
+theorem rel_stackInRange (hc : SafeOK G nTerms nRules T cert) {inp : Array Nat}
     {c : Abs.Config} {s : PState} (hrel : Rel inp c s) {syms w}
     (hinv : StackInv G (autoOf T cert) c.stack syms w) : StackInRange cert.size s.stack := by
   intro e he
@@ -696,7 +696,7 @@ theorem rel_la_ne_error {inp : Array Nat} (hinp : ∀ x ∈ inp.toList, x ≠ 1)
 
 /-- A failing abstract run: the generated parser rejects (or the fuel runs out inside `_recover`),
 on tables without ERROR actions. -/
-theorem runLoop_fail (hc : CheckOK G nTerms nRules T cert) (hne : NoErrorActions T cert.size)
+theorem runLoop_fail (hc : SafeOK G nTerms nRules T cert) (hne : NoErrorActions T cert.size)
     {inp : Array Nat} (hinp : ∀ x ∈ inp.toList, x ≠ 1) (wb : Bool) (fuel : Nat) :
     ∀ (n : Nat) {c : Abs.Config} {s : PState} {syms w}, Rel inp c s →
       StackInv G (autoOf T cert) c.stack syms w →
@@ -712,7 +712,7 @@ theorem runLoop_fail (hc : CheckOK G nTerms nRules T cert) (hne : NoErrorActions
     | cont c' =>
       rw [hst] at h
       obtain ⟨s', hs', hrel'⟩ := sim_cont hc hinp wb fuel hrel hinv hst
-      obtain ⟨syms', u, hinv', _⟩ := Abs.step_inv (safe_of_checkOK hc) hst hinv
+      obtain ⟨syms', u, hinv', _⟩ := Abs.step_inv (safe_of_safeOK hc) hst hinv
       have := ih hrel' hinv' h
       simpa [runLoop, hs'] using this
     | acc t' => rw [hst] at h; simp at h
@@ -728,7 +728,7 @@ theorem runLoop_fail (hc : CheckOK G nTerms nRules T cert) (hne : NoErrorActions
       · left; simp [runLoop, hfail s' hr]
 
 /-- An abstract run that is out of fuel: so is the concrete one. -/
-theorem runLoop_timeout (hc : CheckOK G nTerms nRules T cert) {inp : Array Nat}
+theorem runLoop_timeout (hc : SafeOK G nTerms nRules T cert) {inp : Array Nat}
     (hinp : ∀ x ∈ inp.toList, x ≠ 1) (wb : Bool) (fuel : Nat) :
     ∀ (n : Nat) {c : Abs.Config} {s : PState} {syms w}, Rel inp c s →
       StackInv G (autoOf T cert) c.stack syms w →
@@ -744,7 +744,7 @@ theorem runLoop_timeout (hc : CheckOK G nTerms nRules T cert) {inp : Array Nat}
     | cont c' =>
       rw [hst] at h
       obtain ⟨s', hs', hrel'⟩ := sim_cont hc hinp wb fuel hrel hinv hst
-      obtain ⟨syms', u, hinv', _⟩ := Abs.step_inv (safe_of_checkOK hc) hst hinv
+      obtain ⟨syms', u, hinv', _⟩ := Abs.step_inv (safe_of_safeOK hc) hst hinv
       have := ih hrel' hinv' h
       simpa [runLoop, hs'] using this
     | acc t' => rw [hst] at h; simp at h
@@ -752,7 +752,7 @@ theorem runLoop_timeout (hc : CheckOK G nTerms nRules T cert) {inp : Array Nat}
 
 /-- **The generated `parse` versus the abstract machine, fuel for fuel** (validated tables without
 ERROR actions, input without ERROR tokens). -/
-theorem parse_outcome (hc : CheckOK G nTerms nRules T cert) (hne : NoErrorActions T cert.size)
+theorem parse_outcome (hc : SafeOK G nTerms nRules T cert) (hne : NoErrorActions T cert.size)
     {inp : Array Nat} (hinp : ∀ x ∈ inp.toList, x ≠ 1) (wb : Bool) (fuel : Nat) :
     match Abs.run G (autoOf T cert) fuel (Abs.init inp.toList) with
     | .acc t lg => (parse T inp wb fuel).1 = .accept ∧
@@ -826,7 +826,7 @@ theorem recoverLoop_noerr_fail {T : Tables} {n : Nat} (hne : NoErrorActions T n)
 section
 variable {G : Grammar} {nTerms nRules : Nat} {T : Tables} {cert : Array (List Item)}
 
-theorem recover_noerr_fail (hc : CheckOK G nTerms nRules T cert)
+theorem recover_noerr_fail (hc : SafeOK G nTerms nRules T cert)
     (hne : NoErrorActions T cert.size) {inp : Array Nat} (hinp : ∀ x ∈ inp.toList, x ≠ 1)
     {fuel : Nat} (hfuel : inp.size + 2 ≤ fuel) {s : PState} {i ty : Nat}
     (hsym : s.lasym = .tok i ty) (hla : s.la ≠ tERROR)
@@ -850,7 +850,7 @@ theorem recover_noerr_fail (hc : CheckOK G nTerms nRules T cert)
       exact recoverLoop_noerr_fail hne hinp _ f (f + 1) s hq hr (Or.inr (by omega))
 
 /-- A failing abstract run with enough fuel for `_recover`: the generated parser rejects. -/
-theorem runLoop_reject (hc : CheckOK G nTerms nRules T cert) (hne : NoErrorActions T cert.size)
+theorem runLoop_reject (hc : SafeOK G nTerms nRules T cert) (hne : NoErrorActions T cert.size)
     {inp : Array Nat} (hinp : ∀ x ∈ inp.toList, x ≠ 1) (wb : Bool) {fuel : Nat}
     (hfuel : inp.size + 2 ≤ fuel) :
     ∀ (n : Nat) {c : Abs.Config} {s : PState} {syms w}, Rel inp c s →
@@ -866,7 +866,7 @@ theorem runLoop_reject (hc : CheckOK G nTerms nRules T cert) (hne : NoErrorActio
     | cont c' =>
       rw [hst] at h
       obtain ⟨s', hs', hrel'⟩ := sim_cont hc hinp wb fuel hrel hinv hst
-      obtain ⟨syms', u, hinv', _⟩ := Abs.step_inv (safe_of_checkOK hc) hst hinv
+      obtain ⟨syms', u, hinv', _⟩ := Abs.step_inv (safe_of_safeOK hc) hst hinv
       have := ih hrel' hinv' h
       simpa [runLoop, hs'] using this
     | acc t' => rw [hst] at h; simp at h
@@ -882,7 +882,7 @@ theorem runLoop_reject (hc : CheckOK G nTerms nRules T cert) (hne : NoErrorActio
 
 /-- `parse` rejects when the abstract machine fails within `n ≤ fuel` steps and the fuel also covers
 `_recover`'s scan to the end of the input. -/
-theorem parse_reject_of_fail (hc : CheckOK G nTerms nRules T cert)
+theorem parse_reject_of_fail (hc : SafeOK G nTerms nRules T cert)
     (hne : NoErrorActions T cert.size) {inp : Array Nat} (hinp : ∀ x ∈ inp.toList, x ≠ 1)
     (wb : Bool) {n : Nat} (h : Abs.run G (autoOf T cert) n (Abs.init inp.toList) = .fail)
     {fuel : Nat} (hn : n ≤ fuel) (hfuel : inp.size + 2 ≤ fuel) :
